@@ -1,5 +1,6 @@
 // C09 — rotation, automorphism and (X^p - 1) are the ring maps for every p.
 // Oracle: index arithmetic with true Euclidean remainders in 128-bit integers (no masks).
+#include <quadmath.h>
 #include "lib.h"
 #include "ops.h"
 
@@ -510,6 +511,65 @@ static void concurrent_maps_case(uint64_t N, int T, unsigned rep) {
   case_end(1);
 }
 
+// the double-precision variants on genuinely non-integer data: a*X^p - a is one IEEE subtraction per coefficient, i.e. the exact
+// difference rounded ONCE. Neighbouring coefficients get exponents 52..54 binades apart (random 53-bit mantissas, random signs), so
+// that the exact difference has up to 108 significant bits and sits at every distance from a rounding midpoint: evaluating it in a
+// wider format and rounding again (double rounding) is off by one ulp on some of them. The expectation is computed in binary128,
+// where these differences are exact. Rotation and automorphism only move and negate: compared bit for bit.
+static void rnx_real_case(uint64_t N, int64_t p, unsigned rep) {
+  if (!case_begin("rnx kernels|non-integer data, exponent gaps of 52..54 binades", "N=%" PRIu64 " p=%" PRId64 " rep=%u", N, p, rep)) return;
+  rng_t* r = crng();
+  double* in = malloc(N * 8);
+  double* out = malloc(N * 8);
+  double* ip = malloc(N * 8);
+  const int e0 = (int)rng_range(r, -200, 200);
+  for (uint64_t i = 0; i < N; i++) {
+    const double mant = (double)((rng_u64(r) >> 11) | (1ull << 52));  // 53 significant bits
+    const int e = e0 + ((i ^ (i >> 1)) & 1 ? 52 + (int)(rng_u64(r) % 3) : 0) + (int)(rng_u64(r) % 2);
+    in[i] = ldexp(mant, e - 52) * ((rng_u64(r) & 1) ? 1 : -1);
+  }
+  const uint64_t m2 = 2 * N - 1;
+  uint64_t bad = 0;
+  memset(out, 0x5A, N * 8);
+  rnx_mul_xp_minus_one(N, p, out, in);
+  memcpy(ip, in, N * 8);
+  rnx_mul_xp_minus_one_inplace(N, p, ip);
+  for (uint64_t i = 0; i < N; i++) {
+    // coefficient j of a*X^p: +-in[i] with j = (i + p) mod 2N
+    const uint64_t j2 = ((uint64_t)i + (uint64_t)p) & m2, j = j2 < N ? j2 : j2 - N;
+    const __float128 rot = j2 < N ? (__float128)in[i] : -(__float128)in[i];
+    const double want = (double)(rot - (__float128)in[j]);
+    if ((memcmp(&out[j], &want, 8) && !(out[j] == 0 && want == 0)) && bad++ < 2)
+      viol("oracle", "rnx_mul_xp_minus_one N=%" PRIu64 " p=%" PRId64 " coefficient %" PRIu64 ": got %a, the correctly rounded difference of %a and %a is %a", N, p, j, out[j], (double)rot, in[j], want);
+    if ((memcmp(&ip[j], &want, 8) && !(ip[j] == 0 && want == 0)) && bad++ < 2)
+      viol("oracle", "rnx_mul_xp_minus_one_inplace N=%" PRIu64 " p=%" PRId64 " coefficient %" PRIu64 ": got %a want %a", N, p, j, ip[j], want);
+  }
+  memset(out, 0x5A, N * 8);
+  rnx_rotate_f64(N, p, out, in);
+  memcpy(ip, in, N * 8);
+  rnx_rotate_inplace_f64(N, p, ip);
+  for (uint64_t i = 0; i < N; i++) {
+    const uint64_t j2 = ((uint64_t)i + (uint64_t)p) & m2, j = j2 < N ? j2 : j2 - N;
+    const double want = j2 < N ? in[i] : -in[i];
+    if ((memcmp(&out[j], &want, 8) || memcmp(&ip[j], &want, 8)) && bad++ < 2) viol("oracle", "rnx_rotate(_inplace)_f64 N=%" PRIu64 " p=%" PRId64 " coefficient %" PRIu64 " is not +-(the source coefficient), bit for bit", N, p, j);
+  }
+  if (p & 1) {
+    memset(out, 0x5A, N * 8);
+    rnx_automorphism_f64(N, p, out, in);
+    memcpy(ip, in, N * 8);
+    rnx_automorphism_inplace_f64(N, p, ip);
+    for (uint64_t i = 0; i < N; i++) {
+      const uint64_t j2 = ((uint64_t)i * (uint64_t)p) & m2, j = j2 < N ? j2 : j2 - N;
+      const double want = j2 < N ? in[i] : -in[i];
+      if ((memcmp(&out[j], &want, 8) || memcmp(&ip[j], &want, 8)) && bad++ < 2) viol("oracle", "rnx_automorphism(_inplace)_f64 N=%" PRIu64 " p=%" PRId64 " coefficient %" PRIu64 " is not +-(the source coefficient), bit for bit", N, p, j);
+    }
+  }
+  cnt("rnx_real_coefficients", 4 * N);
+  sample("%" PRIu64 " non-integer coefficients with 52..54-binade gaps: differences correctly rounded, moves bit-exact", N);
+  free(in); free(out); free(ip);
+  case_end(1);
+}
+
 void run_C09(void) {
   const int th = G.thorough;
   const uint64_t exh_max = th ? 65536 : 8192;
@@ -553,4 +613,10 @@ void run_C09(void) {
   // several threads creating, using and destroying their own modules / tables at the same time
   for (unsigned rep = 0; rep < (G.thorough ? 60u : 8u); rep++)
     ops_concurrent_lifecycle_case("C09 objects", LKM_MOD_NTT120 | LKM_MOD_FFT64, (rep % 4) == 3 ? DISP_GENERIC : DISP_NATIVE, rep & 1 ? 8 : 4, 120, rep, "concurrent_lifecycle_uses");
+  {
+    static const uint64_t RN[] = {8, 64, 1024, 4096, 2, 65536};
+    static const int64_t RP[] = {1, 3, -1, 5, 7, 1025, -4097, 2, 6};
+    for (size_t ni = 0; ni < ARRAY_LEN(RN); ni++)
+      for (unsigned rep = 0; rep < (G.thorough ? 60u : (RN[ni] <= 4096 ? 9u : 2u)); rep++) rnx_real_case(RN[ni], RP[rep % ARRAY_LEN(RP)] + (int64_t)(rep / 9) * 2 * (int64_t)RN[ni], rep);
+  }
 }
